@@ -11,7 +11,6 @@ import (
 
 	"golang.org/x/tools/go/cfg"
 	"golang.org/x/tools/go/packages"
-	"golang.org/x/tools/go/types/typeutil"
 )
 
 // state bits of the tracked error variable
@@ -106,7 +105,7 @@ func NeverReturns(info *types.Info, call *ast.CallExpr) bool {
 			return true
 		}
 	}
-	if fn, ok := typeutil.Callee(info, call).(*types.Func); ok && fn.Pkg() != nil {
+	if fn, ok := Callee(info, call).(*types.Func); ok && fn.Pkg() != nil {
 		full := fn.Pkg().Path() + "." + fn.Name()
 		switch full {
 		case "os.Exit", "log.Fatal", "log.Fatalf", "log.Fatalln", "log.Panic", "log.Panicf", "log.Panicln", "runtime.Goexit":
@@ -222,7 +221,7 @@ func (a *analysis) resultErrIndex(call *ast.CallExpr) (idx int, isOK bool, n int
 }
 
 func (a *analysis) selected(call *ast.CallExpr) (types.Object, bool) {
-	callee := typeutil.Callee(a.info, call)
+	callee := Callee(a.info, call)
 	if a.conf.Select == nil {
 		return callee, false
 	}
@@ -522,7 +521,7 @@ func (a *analysis) returnClass(s *Site, ret *ast.ReturnStmt) string {
 		}
 		if isErrorType(tv.Type) || types.Implements(tv.Type, errorType.Underlying().(*types.Interface)) {
 			if call, ok := ast.Unparen(r).(*ast.CallExpr); ok {
-				if fn, ok := typeutil.Callee(a.info, call).(*types.Func); ok && fn.Pkg() != nil {
+				if fn, ok := Callee(a.info, call).(*types.Func); ok && fn.Pkg() != nil {
 					switch fn.Pkg().Path() + "." + fn.Name() {
 					case "fmt.Errorf", "errors.New":
 						return "nonnil"
@@ -753,7 +752,7 @@ func (a *analysis) sinkIn(n ast.Node, s *Site) *ast.CallExpr {
 			return false
 		}
 		if call, ok := m.(*ast.CallExpr); ok {
-			if a.conf.Sink(call, typeutil.Callee(a.info, call)) && (a.conf.SinkNoMention || mentions(a.info, call, s.Var)) {
+			if a.conf.Sink(call, Callee(a.info, call)) && (a.conf.SinkNoMention || mentions(a.info, call, s.Var)) {
 				found = call
 			}
 		}
